@@ -3,8 +3,11 @@ import AwsVerif.Proofs.C01.StepOob
 namespace AwsVerif.Proofs.C01
 open AwsVerif.ByteBuf
 
+/-- the two operations whose failure is documented *not* to be a roll-back: `cat` stops part-way, and
+`init_from_file` discards `*out_buf` first and hands back a cleaned-up (zeroed) buffer on failure -/
 def _root_.AwsVerif.ByteBuf.Op.isCat : Op → Bool
   | .cat _ _ => true
+  | .initFromFile _ _ _ _ => true
   | _ => false
 
 theorem setBufMem_self (s : State) (i : Nat) : ({ s with mem := s.mem } : State).setBuf i (s.bufs i) = s :=
@@ -354,6 +357,11 @@ theorem step_fail_unchanged {s s' : State} {op : Op} {r : Res} (hw : WF s)
     simp only [step] at e
     obtain ⟨⟨e1, v⟩, _, e⟩ := bind_ok e
     cases e; rfl
+  | hashIgnoreCase c =>
+    simp only [step] at e
+    obtain ⟨v, _, e⟩ := bind_ok e
+    cases e; rfl
+  | initFromFile b f useHint sizeHint => cases hcat
 
 /-- `aws_byte_buf_cat` is documented to stop part-way: whatever it reports, only the destination
 slot and its block change, the destination stays in the same block with the same capacity, its
